@@ -8,3 +8,4 @@ pub mod driver;
 
 #[global_allocator]
 static ALLOC: meter::Meter = meter::Meter;
+pub mod fuzzing;
